@@ -289,6 +289,9 @@ class Evaluator:
             model = getattr(type(base), "_model", None)
             if model is not None and n.attr in model.init_literals:
                 return model.init_literals[n.attr]
+            home = self._home_of(n)
+            if home is not None and home.self_obj is base and n.attr in home.class_attrs:
+                return home.class_attrs[n.attr]   # class-level attribute of the class the folded method belongs to (shared state)
             raise Unfoldable(f"attribute {n.attr} not in domain object")
         if isinstance(base, tuple) and hasattr(base, "_fields") and n.attr in base._fields:
             return getattr(base, n.attr)
@@ -926,8 +929,23 @@ class Lifted:
             self.module_funcs = {n.name: n for n in mod.tree.body if isinstance(n, ast.FunctionDef) and n is not fn}
             self.module_classes = {n.name: n for n in mod.tree.body if isinstance(n, ast.ClassDef)}
         par = getattr(fn, "_parent", None)
+        self.class_attrs = {}
         if isinstance(par, ast.ClassDef):
             self.class_methods = {n.name: n for n in par.body if isinstance(n, ast.FunctionDef) and n is not fn}
+            # class-level data attributes with a literal value: one object per parsed class, shared by every instance and every
+            # fold of one run of a check (= one process), exactly as the class attribute is shared in the running program
+            if not hasattr(par, "_fold_class_attrs"):
+                par._fold_class_attrs = {}
+                for node in par.body:
+                    tgt = node.targets[0] if isinstance(node, ast.Assign) and len(node.targets) == 1 else getattr(node, "target", None)
+                    val = getattr(node, "value", None)
+                    if isinstance(tgt, ast.Name) and val is not None and not isinstance(node, ast.FunctionDef):
+                        try:
+                            par._fold_class_attrs[tgt.id] = ast.literal_eval(val)
+                        except (ValueError, SyntaxError, TypeError):
+                            if isinstance(val, ast.Call) and not val.args and not val.keywords and ast.unparse(val.func) in ("dict", "list", "set"):
+                                par._fold_class_attrs[tgt.id] = {"dict": dict, "list": list, "set": set}[ast.unparse(val.func)]()
+            self.class_attrs = par._fold_class_attrs
         self._lifted_helpers = {}
         self.is_gen = any(isinstance(n, (ast.Yield, ast.YieldFrom)) for st in self.body for n in ast.walk(st)
                           if not isinstance(st, (ast.FunctionDef, ast.ClassDef)))
